@@ -239,6 +239,25 @@ P("C05",
   assumptions=["Circuit::hpwl() is the measure (C09 pins it to geometry)"])
 
 
+GLOBAL_DOMAIN = ("Global-placement domain: every row segment at least four row heights wide, at least one movable row-high cell "
+                 "of positive area, no cell with a positive height below half a row (resource bound on the bin count), "
+                 "parameters in the numerically moderate box (CG tolerance >= 1e-6, approximation and cutoff distances >= 0.1), "
+                 "sideMargin in [0,1.5], maxNbSteps <= 30 (60 thorough). ")
+
+P("C06",
+  rc={"quick": (14, 700, 100, 8), "thorough": (14, 12000, 100, 12)},
+  budget={"quick": 150, "thorough": 1800},
+  case_timeout=120,
+  rule=CIRCUIT_RULE + GLOBAL_DOMAIN + "Oracle, with an observing callback: at every UpperBound callback the centre of every "
+       "movable cell of positive area lies in the bounding box of rows() (+-1 +2 ulp_float); every exposed and returned "
+       "coordinate satisfies |v| <= 2^30 and float-cast-overflow stays silent; the returned coordinates equal "
+       "(1-w) LB + w UB of the integer placements seen at the last LowerBound / UpperBound callbacks within "
+       "0.5(|1-w|+|w|)+0.5+4ulp; no exception. non-trivial = >= 3 upper-bound steps, LB and UB differ by more than 4 units "
+       "for some cell, and a fixed cell exists; distinct = hash of the circuit.",
+  assumptions=["zero-area movable cells are in no density bin by design (C16) and are exempt from the centre-inside clause",
+               "cases where the side margin removes every free segment are discarded (the degenerate case the property excludes)"])
+
+
 # ----------------------------------------------------------------------------
 def sh(cmd, **kw):
     return subprocess.run(cmd, stdout=subprocess.PIPE, stderr=subprocess.STDOUT, text=True, **kw)
@@ -497,6 +516,7 @@ def run_proc(p):
 def replay_once(exe, tape, timeout=120, env_extra=None):
     env = dict(os.environ)
     env.update(SAN_ENV)
+    env["VERIF_PRINT_TAGS"] = "1"
     if env_extra:
         env.update(env_extra)
     try:
@@ -538,13 +558,16 @@ def crash_signature(out):
             break
     if sig is None:
         sig = "crash: " + (lines[-1].strip() if lines else "no output")
+    tags = [ln.split("CASE-TAG:", 1)[1].strip() for ln in lines if "CASE-TAG:" in ln]
     # first frame inside the repository sources
     for ln in lines:
         m = re.search(r"#\d+ .* in (.+?) " + re.escape(REPO) + r"/src/(\S+?):(\d+)", ln)
         if m:
             sig += " in " + m.group(2) + ":" + m.group(3)
             break
-    return sig[:400]
+    if tags:
+        sig += " [case: " + "; ".join(tags[-3:]) + "]"
+    return sig[:500]
 
 
 def read_tape(path):
@@ -674,15 +697,11 @@ def run_check(pid, tier, seed, opts):
                 if kind == "timeout":
                     inconclusive.append("replay %s timed out" % rel)
                     continue
-                f = known_replays.get(rel)
-                if f is not None and re.search(f["match"], sig):
+                f = classify_failure(sig)
+                if f is not None:
                     known_hits[f["slug"]] = (f, sig)
                 else:
-                    f2 = classify_failure(sig)
-                    if f2 is not None and rel in known_replays:
-                        known_hits[f2["slug"]] = (f2, sig)
-                    else:
-                        violations.append((path, sig))
+                    violations.append((path, sig))
 
     # ---- 2. generated search --------------------------------------------------
     procs = []
